@@ -59,11 +59,15 @@ func init() {
 // step's exit, the returned exit and the logged segment agree.
 // cover: first-case, later-case, default, no-category, timeout, result-saved, test-error, localized-args, mismatched-args, evaluated-args, empty-match
 func VerifC07_Switch() {
-	ncases := 1 + zzverif.Choice("ncases", 3)
+	maxCases := 3
+	if zzverif.Thorough() {
+		maxCases = 4
+	}
+	ncases := 1 + zzverif.Choice("ncases", maxCases)
 	ncats := 3
 	hasDefault := zzverif.Choice("has-default", 2) == 1
 	hasResult := zzverif.Choice("has-result-name", 2) == 1
-	waitKind := zzverif.Choice("wait", 3) // 0 none, 1 msg wait, 2 msg wait with timeout
+	waitKind := zzverif.Choice("wait", 3)               // 0 none, 1 msg wait, 2 msg wait with timeout
 	locKind := zzverif.Choice("localized-arguments", 4) // 0 none, 1 same length, 2 different length, 3 same length and an expression
 
 	var cats []flows.Category
